@@ -455,7 +455,7 @@ type c12Verdict struct {
 	Want    string
 }
 
-func c12Oracle(cs *c12Case, obs *c12Obs) (bad []c12Verdict, attempts int, g121 int) {
+func c12Oracle(cs *c12Case, obs *c12Obs) (bad []c12Verdict, attempts int, swallowed int) {
 	if obs.Panic != "" {
 		return []c12Verdict{{What: "the interpreter panicked: " + obs.Panic}}, 0, 0
 	}
@@ -570,11 +570,14 @@ func c12Oracle(cs *c12Case, obs *c12Obs) (bad []c12Verdict, attempts int, g121 i
 			}
 		case "gl":
 			if cs.NoReads && per[i].Done && per[i].R == -1 {
-				// only a denied operand makes an un-redirected getline fail under NoFileReads (the check precedes the open)
+				// only a denied operand makes an un-redirected getline fail under NoFileReads (the check precedes the open);
+				// since the repair of G12-1 that must end the run — getline returning -1 and going on is a violation
 				attempts++
-				g121++
+				swallowed++
 				bad = append(bad, c12Verdict{What: "un-redirected getline reached an operand denied by NoFileReads; it returned -1 and the run went on (no error)",
-					Finding: "G12-1", Got: "getline = -1, run continues", Want: "run ends with an error"})
+					Got: "getline = -1, run continues", Want: "run ends with an error"})
+			} else if cs.NoReads && failing == i && c12ErrCode(obs.Err) == "noFileReads" {
+				attempts++
 			}
 		}
 		if denied != "" {
@@ -606,11 +609,11 @@ func c12Oracle(cs *c12Case, obs *c12Obs) (bad []c12Verdict, attempts int, g121 i
 			delete(open, op.N)
 		}
 	}
-	if cs.NoReads && obs.Err == "" && regularOperands > g121 {
+	if cs.NoReads && obs.Err == "" && regularOperands > 0 {
 		bad = append(bad, c12Verdict{What: "NoFileReads is set, the operands name a file, and the run ended without an error",
-			Got: fmt.Sprintf("%d regular operands, %d refused through getline", regularOperands, g121)})
+			Got: fmt.Sprintf("%d regular operands, %d refused through getline returning -1", regularOperands, swallowed)})
 	}
-	return bad, attempts, g121
+	return bad, attempts, swallowed
 }
 
 // ---- correspondence ---------------------------------------------------------------------------------------------------
@@ -857,7 +860,7 @@ func c12Corpus() []c12Case {
 			}
 		}
 	}
-	// operands, and the un-redirected getline (G12-1 witness first)
+	// operands, and the un-redirected getline (first: the witness of G12-1, repaired in 8a7666a — must pass now)
 	for mask := 0; mask < 8; mask++ {
 		for _, hook := range []bool{true, false} {
 			for _, w := range []c12Case{
